@@ -129,8 +129,9 @@ class CtorError(ValueError):
     pass
 
 def _init(self, *a, **kw):
-    if kw.get("boom"):
-        # a constructor that rejects its arguments with a ValueError of its own, as the library's constructors do
+    if "boom" in kw and keyof.get(id(type(self))) == kw["boom"]:
+        # ONE class of the hierarchy (the one named by `boom`) rejects its arguments with a ValueError of its own, as the
+        # library's constructors do; every other class accepts them
         raise CtorError("constructor of %s rejects its arguments" % type(self).__name__)
     self.args = a
     self.kw = kw
@@ -171,10 +172,14 @@ for fi, forest in enumerate(json.load(sys.stdin)):
         for q in phase["queries"]:
             if q["q"] == "resolve_boom":
                 try:
-                    r = classes[q["root"]].from_alias(q["alias"], boom=True)
-                    answers.append({"ok": keyof.get(id(type(r)), -1)})
+                    winner = keyof.get(id(type(classes[q["root"]].from_alias(q["alias"]))), -1)
                 except Exception as e:
-                    answers.append({"err": type(e).__name__})
+                    winner = None
+                try:
+                    r = classes[q["root"]].from_alias(q["alias"], boom=winner)
+                    answers.append({"ok": keyof.get(id(type(r)), -1), "winner": winner})
+                except Exception as e:
+                    answers.append({"err": type(e).__name__, "winner": winner})
             elif q["q"] == "resolve":
                 try:
                     r = classes[q["root"]].from_alias(q["alias"])
@@ -414,9 +419,11 @@ def synthetic(ctx, driver):
                     want = expected_winner(sub, q["alias"])
                     exp = "ValueError" if want is None else "CtorError"
                     got = ("instance of class %s" % ans["ok"]) if "ok" in ans else ans.get("err")
-                    if got != exp:
-                        ctx.violation(case, exp, got, "from_alias propagates the exception of the resolved class's constructor "
-                                      "(the config route builds what explicit construction builds, or fails as it fails)",
+                    # what is demanded: no object comes back (how the failure is reported - the constructor's own
+                    # exception or one wrapping it - is not the property's business); an unknown alias is a ValueError
+                    if ("ok" in ans) or (want is None and got != "ValueError"):
+                        ctx.violation(case, exp, got, "when the constructor of the class that wins the alias rejects its arguments, from_alias fails too "
+                                      "(the config route builds what explicit construction builds, or fails as it fails) - it never builds another carrier of the alias",
                                       tags=dict(clause="ctor_exception_propagates", where="synthetic"))
                     continue
                 if q["q"] == "resolve":
